@@ -226,9 +226,11 @@ def _execute_session(plan: dict[str, Any]) -> dict[str, Any]:
     ticks = [e.tick for e in be]
     n = len(ticks)
     other_be = None
+    other_chart = None
     if plan.get("other_text"):
         try:
-            other_be = world.parse_text(plan["other_text"]).sync_track.bpm_events
+            other_chart = world.parse_text(plan["other_text"])
+            other_be = other_chart.sync_track.bpm_events
         except Exception:  # noqa: BLE001
             other_be = None
     be_main = be
@@ -342,8 +344,20 @@ def _execute_session(plan: dict[str, Any]) -> dict[str, Any]:
                         violations.append({"sig": "C11/session/wrong-index/query",
                                            "detail": f"client {ci} op {k}: tick {t} hint {hh} over {ticks}: "
                                                      f"index {got[2]} (un-hinted {want[2]}), governing index {g}"})
+            # at the end of the session, on THIS thread: every timestamp stored on a parsed event
+            # of the chart still equals the un-hinted query for its tick
+            with sched.atomic(client):
+                ch = other_chart if (other_chart is not None and other_be is not None and ci % 2 == 1) else chart
+                try:
+                    bad = _stored_mismatch(ch, requeried)
+                except BaseException:  # noqa: BLE001
+                    bad = None
+                if bad and not violations:
+                    violations.append({"sig": f"C11/session/stored-differs-from-unhinted/{bad[0]}",
+                                       "detail": f"client {ci}, after its session, on its own thread: {bad[1]}"})
         return body
 
+    requeried = {"timestamps_requeried": 0}
     harness_error = None
     try:
         sched.run([body_for(i) for i in range(n_clients)])
